@@ -116,22 +116,45 @@ class FnInfo:
 class Unit:
     """one Rust source file -> one Lean namespace"""
 
-    def __init__(self, repo, rel, ns, const_files=(), externals=None, struct_files=()):
+    def __init__(self, repo, rel, ns, const_files=(), externals=None, struct_files=(), src=None, foreign_structs=None, tuple_structs=None):
         self.repo, self.rel, self.ns = repo, rel, ns
-        self.fi = FileIndex(rel, open(repo.rstrip("/") + "/" + rel).read())
+        # tuple structs (`struct KVV(pub String, pub (u64, Vec<u8>));`) are opaque unless listed here (or translating
+        # from a source text, as the self-test does): then they are the tuple of their components
+        self.open_tuple_structs = None if src is not None else set(tuple_structs or ())
+        def load(r):
+            # `@verif/<path>`: a file of the framework itself (translator fixtures), not of /repo
+            if r.startswith("@verif/"):
+                import os
+                return open(os.path.join(os.path.dirname(os.path.abspath(__file__)), "..", r[len("@verif/"):])).read()
+            return open(repo.rstrip("/") + "/" + r).read()
+        self.fi = FileIndex(rel, src if src is not None else load(rel))
         self.struct_src = {n: rel for n in self.fi.structs}
         for r in struct_files:      # struct declarations of other files, used as local structures
-            idx = FileIndex(r, open(repo.rstrip("/") + "/" + r).read())
+            idx = FileIndex(r, load(r))
             for n, fields in idx.structs.items():
                 if n not in self.fi.structs:
                     self.fi.structs[n] = fields; self.struct_src[n] = r
-        self.const_idx = [self.fi] + [FileIndex(r, open(repo.rstrip("/") + "/" + r).read()) for r in const_files]
+            for n, comps in idx.tuple_structs.items():
+                self.fi.tuple_structs.setdefault(n, comps)
+            for n, vs in idx.enum_data.items():
+                if n not in self.fi.enums and n not in self.fi.enum_data:
+                    self.fi.enum_data[n] = vs; self.fi.enums[n] = None
+            for n, vs in idx.enums.items():
+                self.fi.enums.setdefault(n, vs)
+        self.const_idx = [self.fi] + [FileIndex(r, load(r)) for r in const_files]
+        # structs of other crates whose fields the code reads (e.g. bitcoin::OutPoint {txid, vout}): declared in the
+        # target list (trusted: field names and types are checked by rustc only through the differential harness)
+        for n, flds in (foreign_structs or {}).items():
+            if n not in self.fi.structs:
+                self.fi.structs[n] = [(f, Parser(lex(ty) + [Tok("eof", "", 0)], 0, "<foreign>").type_()) for f, ty in flds.items()]
+                self.struct_src[n] = "declared in the target list"
         self.externals = externals or {}   # name -> {"params": [rust type str], "ret": rust type str}
         self.fns = {}        # (impl, name) -> FnInfo  (translated)
         self.order = []      # emission order
         self.failed = {}     # (impl, name) -> message
         self.used_fields = {}  # struct -> ordered list of fields
         self.used_enums = []
+        self.used_denums = []   # enums with data-carrying variants
         self.in_progress = set()
 
     # ---- types
@@ -146,15 +169,25 @@ class Unit:
             if n in self.fi.enums and self.fi.enums[n] is not None:
                 if n not in self.used_enums: self.used_enums.append(n)
                 return ("enum", n)
-            if n in ("Mutex", "Arc", "RefCell", "MutexGuard") and len(t[2]) == 1:
+            if n in self.fi.enum_data:
+                if n not in self.used_denums: self.used_denums.append(n)
+                return ("enum", n)
+            if n in self.fi.tuple_structs and len(self.fi.tuple_structs[n]) >= 2 \
+                    and (self.open_tuple_structs is None or n in self.open_tuple_structs):
+                return ("tuple", [self.resolve(x, n) for x in self.fi.tuple_structs[n]])
+            if n in ("Mutex", "Arc", "RefCell", "MutexGuard", "Rc") and len(t[2]) == 1:
                 return self.resolve(t[2][0], impl)     # trusted: locking is the identity on the protected value
-            if n in ("BTreeMap", "OrderedMap", "Map") and len(t[2]) == 2:
+            if n in ("BTreeMap", "OrderedMap", "Map", "HashMap", "UnorderedMap") and len(t[2]) >= 2:
                 k = self.resolve(t[2][0], impl)
-                if k != ("str",): raise RsError("map with a non-string key is outside the subset")
-                return ("map", k, self.resolve(t[2][1], impl))
+                # "map": ordered by key (BTreeMap); "umap": no defined iteration order (HashMap)
+                kind = "map" if n in ("BTreeMap", "OrderedMap", "Map") else "umap"
+                return (kind, k, self.resolve(t[2][1], impl))
+            if n in ("__set_o", "__set_u") and len(t[2]) == 1:
+                return ("set" if n == "__set_o" else "uset", self.resolve(t[2][0], impl))
             return ("opaque", n)
         if k == "opt": return ("opt", self.resolve(t[1], impl))
         if k == "vec": return ("vec", self.resolve(t[1], impl))
+        if k == "array": return ("vec", self.resolve(t[1], impl))
         if k == "tuple": return ("tuple", [self.resolve(x, impl) for x in t[1]])
         if k == "result": return ("result", self.resolve(t[1], impl), self.resolve(t[2], impl))
         return t
@@ -172,13 +205,40 @@ class Unit:
                 return self.resolve(ty, sname)
         raise RsError("no field %s in struct %s" % (f, sname))
 
+    def variants(self, en):
+        """[(variant, None | ("tuple", [resolved type]) | ("struct", [(field, resolved type)]))]"""
+        if self.fi.enums.get(en) is not None:
+            return [(v, None) for v in self.fi.enums[en]]
+        out = []
+        for v, pl in self.fi.enum_data[en]:
+            if pl is None: out.append((v, None))
+            elif pl[0] == "tuple": out.append((v, ("tuple", [self.resolve(x, en) for x in pl[1]])))
+            else: out.append((v, ("struct", [(f, self.resolve(x, en)) for f, x in pl[1]])))
+        return out
+
+    def variant_types(self, en, v):
+        for n, pl in self.variants(en):
+            if n == v:
+                if pl is None: return None, []
+                if pl[0] == "tuple": return None, list(pl[1])
+                return [f for f, _ in pl[1]], [x for _, x in pl[1]]
+        raise RsError("no variant %s in enum %s" % (v, en))
+
     def opaques_of(self, t, acc, seen=None):
         seen = seen if seen is not None else set()
         k = t[0]
         if k == "opaque":
             if t[1] not in acc: acc.append(t[1])
-        elif k in ("opt", "vec"): self.opaques_of(t[1], acc, seen)
-        elif k == "map": self.opaques_of(t[2], acc, seen)
+        elif k in ("opt", "vec", "set", "uset", "iter"): self.opaques_of(t[1], acc, seen)
+        elif k == "map" and t[1] == ("str",): self.opaques_of(t[2], acc, seen)
+        elif k in ("map", "umap"):
+            self.opaques_of(t[1], acc, seen); self.opaques_of(t[2], acc, seen)
+        elif k == "enum" and t[1] in self.fi.enum_data:
+            if ("enum", t[1]) in seen: return acc
+            seen.add(("enum", t[1]))
+            for _, pl in self.variants(t[1]):
+                if pl is not None:
+                    for x in (pl[1] if pl[0] == "tuple" else [y for _, y in pl[1]]): self.opaques_of(x, acc, seen)
         elif k == "tuple":
             for x in t[1]: self.opaques_of(x, acc, seen)
         elif k == "result": self.opaques_of(t[1], acc, seen)
@@ -196,12 +256,18 @@ class Unit:
         if k == "str": return "String"
         if k == "unit": return "Unit"
         if k == "opaque": return t[1]
-        if k == "enum": return t[1]
+        if k == "enum":
+            ops = self.opaques_of(t, []) if t[1] in self.fi.enum_data else []
+            if not ops: return t[1]
+            s = t[1] + " " + " ".join(ops)
+            return s if top else "(" + s + ")"
         if k == "opt": return "Option %s" % self.lt(t[1], False) if top else "(Option %s)" % self.lt(t[1], False)
         if k == "vec": return "List %s" % self.lt(t[1], False) if top else "(List %s)" % self.lt(t[1], False)
-        if k == "map":
-            x = "List (String × %s)" % self.lt(t[2], False)
+        if k in ("map", "umap"):
+            x = "List (%s × %s)" % (self.lt(t[1], False), self.lt(t[2], False))
             return x if top else "(" + x + ")"
+        if k in ("set", "uset"):
+            return "List %s" % self.lt(t[1], False) if top else "(List %s)" % self.lt(t[1], False)
         if k == "tuple":
             s = " × ".join(self.lt(x, False) for x in t[1])
             return s if top else "(" + s + ")"
@@ -255,14 +321,14 @@ class Unit:
         if key in self.failed: raise RsError(self.failed[key])
         if key in self.in_progress: raise RsError("recursive function %s" % name)
         self.in_progress.add(key)
-        snap = ({k: list(v) for k, v in self.used_fields.items()}, list(self.used_enums))
+        snap = ({k: list(v) for k, v in self.used_fields.items()}, list(self.used_enums), list(self.used_denums))
         try:
             f = self.fi.function(impl, name)
             info = FnTranslator(self, f).run()
         except RsError as e:
             self.failed[key] = "%s%s: %s" % ((impl + "::") if impl else "", name, e)
             if len(self.in_progress) == 1:
-                self.used_fields, self.used_enums = snap
+                self.used_fields, self.used_enums, self.used_denums = snap
             raise RsError(self.failed[key])
         finally:
             self.in_progress.discard(key)
@@ -290,16 +356,35 @@ class Unit:
             L.append("")
         # structures in dependency order
         done = []
+        def deps(t):
+            if t[0] == "struct": emit_struct(t[1])
+            elif t[0] == "enum" and t[1] in self.fi.enum_data: emit_denum(t[1])
+            elif t[0] in ("opt", "vec", "set", "uset"): deps(t[1])
+            elif t[0] in ("map", "umap"): deps(t[1]); deps(t[2])
+            elif t[0] == "tuple":
+                for x in t[1]: deps(x)
+        def emit_denum(en):
+            if ("enum", en) in done: return
+            done.append(("enum", en))
+            vs = self.variants(en)
+            for _, pl in vs:
+                if pl is not None:
+                    for x in (pl[1] if pl[0] == "tuple" else [y for _, y in pl[1]]): deps(x)
+            ops = self.opaques_of(("enum", en), [])
+            L.append("/-- `enum %s` (%s) -/" % (en, self.rel))
+            L.append("inductive %s%s where" % (en, (" (" + " ".join(ops) + " : Type)") if ops else ""))
+            for v, pl in vs:
+                if pl is None: L.append("  | %s" % lid(v))
+                elif pl[0] == "tuple":
+                    L.append("  | %s %s" % (lid(v), " ".join("(a%d : %s)" % (i, self.lt(x)) for i, x in enumerate(pl[1]))))
+                else:
+                    L.append("  | %s %s" % (lid(v), " ".join("(%s : %s)" % (lid(f), self.lt(x)) for f, x in pl[1])))
+            L.append("deriving DecidableEq, Repr")
+            L.append("")
         def emit_struct(s):
             if s in done: return
             done.append(s)
             for f in self.used_fields.get(s, []):
-                def deps(t):
-                    if t[0] == "struct": emit_struct(t[1])
-                    elif t[0] in ("opt", "vec"): deps(t[1])
-                    elif t[0] == "map": deps(t[2])
-                    elif t[0] == "tuple":
-                        for x in t[1]: deps(x)
                 deps(self.struct_field(s, f))
             ops = self.opaques_of(("struct", s), [])
             L.append("/-- `struct %s` (%s), fields used: %d of %d -/" % (s, self.struct_src.get(s, self.rel), len(self.used_fields.get(s, [])), len(self.fi.structs[s])))
@@ -313,6 +398,18 @@ class Unit:
             L.append("")
         for s in list(self.used_fields):
             emit_struct(s)
+        # structures that only occur in a signature (no field is read or written): emitted without fields
+        def sig_structs(t):
+            if t[0] == "struct": emit_struct(t[1])
+            elif t[0] in ("opt", "vec", "iter", "set", "uset"): sig_structs(t[1])
+            elif t[0] in ("map", "umap"): sig_structs(t[1]); sig_structs(t[2])
+            elif t[0] == "tuple":
+                for x in t[1]: sig_structs(x)
+        for key in self.order:
+            for _, t in self.fns[key].params: sig_structs(t)
+            sig_structs(self.fns[key].out_ty)
+        for en in self.used_denums:
+            emit_denum(en)
         for key in self.order:
             L += self.fns[key].lean_lines()
             L.append("")
@@ -351,12 +448,23 @@ class FnTranslator:
         if f["self"] in ("val", "valmut"):
             raise RsError("by-value self receiver is outside the subset")
         self.trait_self = False
+        self.loops = []      # enclosing translated loops (innermost last)
+        self.patlets = []    # projections bound by struct patterns, flushed into the arm body
+        if f["body"] is None:
+            raise RsError("declaration without a body (trait method)")
         if f["self"]:
-            if self.impl not in u.fi.structs:
-                # default method of a trait: `self` may only appear as the receiver of policy_err!
+            if self.impl in u.fi.enum_data or u.fi.enums.get(self.impl) is not None:
+                if f["self"] != "ref": raise RsError("&mut self method of an enum")
+                st = u.resolve(("named", self.impl, []))
+                env["self"] = st
+                params.append(("self", st))
+            elif self.impl not in u.fi.structs:
+                # default method of a trait: `self` is a value of an opaque type; the required methods of the
+                # trait it calls become explicit function parameters (externals)
                 if f["self"] != "ref": raise RsError("&mut self in a trait default method")
                 self.trait_self = True
-                self.selfk = None
+                env["self"] = ("opaque", "SelfT")
+                params.append(("self", ("opaque", "SelfT")))
             else:
                 env["self"] = ("struct", self.impl)
                 u.used_fields.setdefault(self.impl, [])
@@ -370,7 +478,7 @@ class FnTranslator:
             if refmut: self.mut_params.append(pat[1])
         self.params_pre = params
         for mp in self.mut_params:
-            if env[mp][0] != "struct": raise RsError("&mut parameter of a non-struct type is outside the subset")
+            if env[mp][0] == "opaque": raise RsError("&mut parameter of an opaque type is outside the subset")
         self.ret = u.resolve(f["ret"], self.impl)
         self.is_result = self.ret[0] == "result"
         self.val_ty = self.ret[1] if self.is_result else self.ret
@@ -386,6 +494,7 @@ class FnTranslator:
         info.mut_self = self.selfk == "mut"
         info.mut_params = list(self.mut_params)
         info.has_self = bool(params) and params[0][0] == "self"
+        info.out_names = [n for n, _ in self.out_parts()]
         info.monadic = self.is_result or monadic(ir)
         info.exts = self.exts
         info.ir = ir
@@ -404,6 +513,19 @@ class FnTranslator:
         """`X.lock().unwrap()` / `.expect(..)` -> X"""
         if e[0] == "mcall" and e[2] in ("unwrap", "expect") and e[1][0] == "mcall" and e[1][2] == "lock" and not e[1][4]:
             return e[1][1]
+        return None
+
+    def find_alias(self, e):
+        """`X.iter_mut().find(closure).unwrap()` / `.expect(..)` -> (X, closure)"""
+        if e[0] == "mcall" and e[2] in ("unwrap", "expect") and e[1][0] == "mcall" and e[1][2] == "find" and len(e[1][4]) == 1 \
+                and e[1][1][0] == "mcall" and e[1][1][2] == "iter_mut" and not e[1][1][4]:
+            return e[1][1][1], e[1][4][0]
+        return None
+
+    def some_alias(self, e):
+        """`X.as_mut().unwrap()` / `.expect(..)` -> ("someof", X): a write-through alias of the content of the Option place X"""
+        if e[0] == "mcall" and e[2] in ("unwrap", "expect") and e[1][0] == "mcall" and e[1][2] == "as_mut" and not e[1][4]:
+            return ("someof", e[1][1])
         return None
 
     def prescan(self, blk):
@@ -436,7 +558,8 @@ class FnTranslator:
             if muts: self.selfk = "mut"
         calls = []
         def f3(e):
-            if e and e[0] == "mcall" and e[1] == ("path", ["self"]) and (self.impl, e[2]) in self.u.fi.fns: calls.append(e[2])
+            if e and e[0] == "mcall" and e[1] == ("path", ["self"]) and (self.impl, e[2]) in self.u.fi.fns \
+                    and (self.impl, e[2]) not in self.u.fi.decl_only: calls.append(e[2])
         walk(blk, f3)
         for m in calls:
             if (self.impl, m) == (self.impl, self.f["name"]): continue
@@ -508,8 +631,12 @@ class FnTranslator:
             r = self.call_any(e, env, pre, want_result=True)
             if r is not None and r[2] == "comp":
                 if self.selfk == "mut" or self.mut_params:
-                    raise RsError("tail call of a Result function from a method that returns updated state")
+                    v = self.fresh("r")
+                    return self.wrap(pre, Bind(v, MCall(r[0]), P(self.pack(env, v))))
                 return self.wrap(pre, MCall(r[0]))
+            if r is not None and r[2] == "tried":
+                self.check_ty(r[1], self.val_ty, "tail call")
+                return self.wrap(pre, P(self.pack(env, r[0])))
         raise RsError("Result-typed tail expression outside the subset: %s" % e[0])
 
     def err_tag(self, e, env, pre):
@@ -524,9 +651,16 @@ class FnTranslator:
             return self.err_tag(e[1], env, pre)
         raise RsError("error value outside the subset")
 
+    def compat(self, a, b):
+        """equal up to element types not yet known (`Vec::new()` without annotation: Lean infers them)"""
+        if a == ("unknown",) or b == ("unknown",): return True
+        if isinstance(a, (tuple, list)) and isinstance(b, (tuple, list)) and len(a) == len(b) and type(a) == type(b):
+            return all(self.compat(x, y) for x, y in zip(a, b))
+        return a == b
+
     def check_ty(self, got, want, what):
         if got == INTLIT and is_int(want): return
-        if got != want:
+        if got != want and not self.compat(got, want):
             raise RsError("type mismatch in %s: %r vs %r" % (what, got, want))
 
     def wrap(self, pre, body):
@@ -547,6 +681,19 @@ class FnTranslator:
             return any(self.has_return(x) for x in e)
         if isinstance(e, list):
             return any(self.has_return(x) for x in e)
+        return False
+
+    def has_jump(self, e, inner=False):
+        """`return` anywhere (closures excepted), or `break`/`continue` of the loop whose body `e` is part of"""
+        if isinstance(e, tuple):
+            if e and e[0] == "return": return True
+            if e and e[0] in ("break", "continue"): return not inner
+            if e and e[0] in ("closure", "macro"): return False
+            if e and e[0] in ("for", "while", "whilelet", "loop"):
+                return any(self.has_jump(x, True) for x in e[1:])
+            return any(self.has_jump(x, inner) for x in e)
+        if isinstance(e, list):
+            return any(self.has_jump(x, inner) for x in e)
         return False
 
     def has_try(self, e):
@@ -581,8 +728,15 @@ class FnTranslator:
             if r not in declared and r not in acc: acc.append(r)
             self.assigned(e[3], acc, declared)
             return acc
+        if k == "ref" and len(e) > 2:
+            # `&mut place` handed to a callee: the place may be assigned
+            try:
+                r = self.place_root(e[1])
+                if r not in declared and r not in acc: acc.append(r)
+            except RsError:
+                pass
         if k == "mcall":
-            if e[2] in MUT_METHODS or self.is_mut_self_call(e):
+            if e[2] in MUT_METHODS or e[2] == "take" or self.is_mut_self_call(e):
                 try:
                     r = self.place_root(e[1])
                     if r not in declared and r not in acc: acc.append(r)
@@ -599,26 +753,32 @@ class FnTranslator:
         elif e[1][0] == "path" and len(e[1][1]) == 1 and e[1][1][0] in getattr(self, "mut_params", []):
             t = dict(self.params_pre).get(e[1][1][0])
             if t and t[0] == "struct": impl = t[1]
+        def mut_recv(k):
+            if not isinstance(k, int): return False
+            t = self.u.fi.toks
+            j = k
+            while t[j].s != "(": j += 1
+            return t[j + 1].s == "&" and t[j + 2].s == "mut"
         if impl:
-            k = self.u.fi.fns.get((impl, e[2]))
-            if isinstance(k, int):
-                t = self.u.fi.toks
-                j = k
-                while t[j].s != "(": j += 1
-                return t[j + 1].s == "&" and t[j + 2].s == "mut"
-        return False
+            return mut_recv(self.u.fi.fns.get((impl, e[2])))
+        if e[1] == ("path", ["self"]): return False
+        # any other receiver (field, alias, local of a struct type of this file): by name, conservatively
+        return any(mut_recv(k) for (im, nm), k in self.u.fi.fns.items() if nm == e[2])
 
     def pat_vars(self, p):
         k = p[0]
         if k == "pvar": return [p[1]]
         if k == "ptuple": return [v for x in p[1] for v in self.pat_vars(x)]
         if k == "pctor": return [v for x in p[2] for v in self.pat_vars(x)]
+        if k == "pstruct": return [v for _, x in p[2] for v in self.pat_vars(x)]
+        if k == "por": return [v for x in p[1] for v in self.pat_vars(x)]
         return []
 
     def place_root(self, e):
         k = e[0]
         if k == "path" and len(e[1]) == 1: return e[1][0]
-        if k in ("field", "tfield", "index", "deref", "paren", "ref"): return self.place_root(e[1])
+        if k in ("field", "tfield", "index", "deref", "paren", "ref", "someof"): return self.place_root(e[1])
+        if k == "mcall" and e[2] in ("as_mut", "borrow_mut", "as_mut_slice") and not e[4]: return self.place_root(e[1])
         raise RsError("assignment target outside the subset")
 
     def stmts(self, items, tail, env, fin):
@@ -640,7 +800,33 @@ class FnTranslator:
                 env2 = dict(env)
                 env2[pat[1]] = ("alias", al, at)
                 return self.stmts(rest, tail, env2, fin)
-            if e[0] in ("if", "iflet", "match") and self.has_return(e):
+            fa = self.find_alias(e)
+            if fa is not None and pat[0] == "pvar":
+                # `let h = X.iter_mut().find(|h| pred).unwrap();`: h is a write-through alias of the first element of
+                # the vector place X that satisfies pred (panic if there is none)
+                X, clo = fa
+                if self.place_root(X) != "self": raise RsError("iter_mut().find() on a vector that is not part of self")
+                pre = []
+                base, bt = self.expr(X, env, pre, None)
+                if bt[0] != "vec": raise RsError("iter_mut().find() on a non-vector")
+                pats, ir, t = self.closure1(clo, [bt[1]], env, BOOL)
+                if monadic(ir): raise RsError("effectful predicate closure")
+                self.check_ty(t, BOOL, "find")
+                iv = self.fresh("i")
+                pre.append(("bind", iv, MCall("Rs.unwrap (%s.findIdx? (fun %s => %s))" % (base, pats[0], inline(ir)))))
+                env2 = dict(env)
+                env2[iv] = ("int", "usize")
+                env2[pat[1]] = ("alias", ("index", X, ("path", [iv])), bt[1])
+                return self.wrap(pre, self.stmts(rest, tail, env2, fin))
+            sa = self.some_alias(e)
+            if sa is not None and pat[0] == "pvar":
+                pre = []
+                _, at = self.expr(sa, env, pre, None)      # the unwrap happens (and may panic) here
+                env2 = dict(env)
+                env2[pat[1]] = ("alias", sa, at)
+                pre[-1] = ("bind", "_", pre[-1][2])
+                return self.wrap(pre, self.stmts(rest, tail, env2, fin))
+            if e[0] in ("if", "iflet", "match") and self.has_jump(e):
                 raise RsError("return inside a let initialiser (line %d)" % line)
             pre = []
             term, t = self.expr(e, env, pre, want)
@@ -654,7 +840,26 @@ class FnTranslator:
                 pre[-1] = (pre[-1][0], lp, pre[-1][2])
             else:
                 pre.append(("let", lp, term))
+            pre += self.flush_patlets()
             return self.wrap(pre, self.stmts(rest, tail, env2, fin))
+        if k == "letelse":
+            # `let P = e else { diverges };`  =  match e { P => rest, _ => else-block }
+            _, pat, ty, e, els, line = st
+            want = self.u.resolve(ty, self.impl) if ty is not None else None
+            pre = []
+            term, t = self.expr(e, env, pre, want)
+            env2 = dict(env)
+            lp = self.pat(pat, t, env2)
+            lets = self.flush_patlets()
+            def nofall(envx, tl):
+                if tl is not None and tl[0] in ("return", "break", "continue"):
+                    return self.stmt_expr(tl, [], None, envx, nofall)
+                if tl is not None and tl[0] == "macro" and tl[1] in ("panic", "unreachable", "unimplemented", "todo"):
+                    return MCall("Rs.panic")
+                raise RsError("else block of let-else that does not diverge (line %d)" % line)
+            eir = self.stmts(els[1], els[2], env, nofall)
+            body = self.wrap(lets, self.stmts(rest, tail, env2, fin))
+            return self.wrap(pre, Match(term, [(lp, body), ("_", eir)]))
         if k == "expr":
             e = st[1]
             return self.stmt_expr(e, rest, tail, env, fin)
@@ -669,6 +874,8 @@ class FnTranslator:
         if k == "ptuple":
             if t[0] != "tuple" or len(t[1]) != len(pat[1]): raise RsError("tuple pattern mismatch")
             return "(" + ", ".join(self.bind_pat(p, x, env) for p, x in zip(pat[1], t[1])) + ")"
+        if k == "pstruct" and t[0] == "struct":
+            return self.pat(pat, t, env)
         raise RsError("refutable pattern in let")
 
     def stmt_expr(self, e, rest, tail, env, fin):
@@ -676,7 +883,17 @@ class FnTranslator:
         cont = lambda env2: self.stmts(rest, tail, env2, fin)
         if k == "paren": return self.stmt_expr(e[1], rest, tail, env, fin)
         if k == "return":
+            if self.loops: return self.loop_return(env, e[1])
             return self.fin_return(env, e[1])
+        if k in ("break", "continue"):
+            if not self.loops: raise RsError("%s outside a translated loop" % k)
+            if k == "break":
+                if self.loops[-1].get("nobreak"): raise RsError("break inside this loop form is outside the subset")
+                self.loops[-1]["flow"] = True
+                return P("(.brk %s)" % self.loops[-1]["tup"])
+            if self.loops[-1].get("nocontinue"): raise RsError("continue inside a counted while loop is outside the subset")
+            self.loops[-1]["flow"] = True
+            return P("(.next %s)" % self.loops[-1]["tup"])
         if k == "macro":
             pre = []
             self.macro_stmt(e, env, pre)
@@ -686,7 +903,7 @@ class FnTranslator:
             env2 = self.assign(e, env, pre)
             return self.wrap(pre, cont(env2))
         if k in ("if", "iflet", "match", "block"):
-            if self.has_return(e):
+            if self.has_jump(e):
                 # the rest of the function is appended to every branch (fail closed on shadowing)
                 def k2(env2, t):
                     if t is not None and t[0] not in ("unit",):
@@ -720,6 +937,15 @@ class FnTranslator:
             return Bind(pat, ir, cont(env))
         if k == "for":
             return self.for_stmt(e, env, cont)
+        if k in ("while", "whilelet"):
+            return self.while_stmt(e, env, cont)
+        if k == "loop":
+            raise RsError("`loop` has no structural (fuel-free) form: outside the subset")
+        if k == "mcall" and e[2] == "map" and len(e[4]) == 1 and e[4][0][0] == "closure" and len(e[4][0][1]) == 1:
+            # `opt.map(|x| effect);` as a statement = `if let Some(x) = opt { effect; }`
+            c = e[4][0]
+            body = c[2] if c[2][0] == "block" else ("block", [("expr", c[2], e[5])], None)
+            return self.stmt_expr(("iflet", ("pctor", ["Some"], [c[1][0]]), e[1], body, None), rest, tail, env, fin)
         if k in ("mcall", "call", "try"):
             pre = []
             env2 = self.effect_call(e, env, pre)
@@ -761,8 +987,9 @@ class FnTranslator:
         else:
             sterm, sty = self.expr(scrut, env, pre, None)
         out = []
+        if any(g is not None for _, g, _ in arms):
+            return self.wrap(pre, self.guarded(sterm, sty, scrut[0] == "tuple", arms, env, fin))
         for pat, guard, body in arms:
-            if guard is not None: raise RsError("match guards are outside the subset")
             env2 = dict(env)
             if scrut[0] == "tuple":
                 if pat[0] == "pwild":
@@ -773,12 +1000,60 @@ class FnTranslator:
                     raise RsError("tuple match pattern mismatch")
             else:
                 lp = self.pat(pat, sty, env2)
+            lets = self.flush_patlets()
             if body[0] == "block":
                 ir = self.stmts(body[1], body[2], env2, fin)
             else:
                 ir = self.stmts([], body, env2, fin)
-            out.append((lp, ir))
+            out.append((lp, self.wrap(lets, ir)))
         return self.wrap(pre, Match(sterm, out))
+
+    def flush_patlets(self):
+        r = [("let", v, term) for v, term in self.patlets]
+        self.patlets = []
+        return r
+
+    def irrefutable(self, p):
+        if p[0] in ("pwild", "pvar"): return True
+        if p[0] == "ptuple": return all(self.irrefutable(x) for x in p[1])
+        return False
+
+    def guarded(self, sterm, sty, is_tuple, arms, env, fin):
+        """match with guards: an arm `P if g => A` is `match s with | P => if g then A else REST | _ => REST`
+        where REST is the match on the remaining arms (Rust tries the arms in order; a failed guard falls through)"""
+        if not arms: raise RsError("match whose last arm has a guard")
+        pat, guard, body = arms[0]
+        env2 = dict(env)
+        if is_tuple:
+            if pat[0] == "pwild": lp = ", ".join("_" for _ in sty[1])
+            elif pat[0] == "ptuple" and len(pat[1]) == len(sty[1]):
+                lp = ", ".join(self.pat(p, t, env2) for p, t in zip(pat[1], sty[1]))
+            else: raise RsError("tuple match pattern mismatch")
+        else:
+            lp = self.pat(pat, sty, env2)
+        lets = self.flush_patlets()
+        def arm_ir():
+            if body[0] == "block": return self.stmts(body[1], body[2], env2, fin)
+            return self.stmts([], body, env2, fin)
+        irref = self.irrefutable(pat)
+        if guard is None:
+            if irref or len(arms) == 1:
+                return Match(sterm, [(lp, self.wrap(lets, arm_ir()))])
+            # the remaining arms, tried when P does not match
+            restm = self.guarded(sterm, sty, is_tuple, arms[1:], env, fin)
+            if any(g is not None for _, g, _ in arms[1:]):
+                return Match(sterm, [(lp, self.wrap(lets, arm_ir())), ("_" if not is_tuple else ", ".join("_" for _ in sty[1]), restm)])
+            # no more guards: one flat match
+            return Match(sterm, [(lp, self.wrap(lets, arm_ir()))] + restm.arms)
+        gpre = []
+        g, gt = self.expr(guard, env2, gpre, BOOL)
+        self.check_ty(gt, BOOL, "match guard")
+        rest1 = self.guarded(sterm, sty, is_tuple, arms[1:], env, fin)
+        inner = self.wrap(lets, self.wrap(gpre, If(g, arm_ir(), rest1)))
+        if irref:
+            return Match(sterm, [(lp, inner)])
+        rest2 = self.guarded(sterm, sty, is_tuple, arms[1:], env, fin)
+        return Match(sterm, [(lp, inner), ("_" if not is_tuple else ", ".join("_" for _ in sty[1]), rest2)])
 
     def pat(self, p, t, env):
         k = p[0]
@@ -796,15 +1071,46 @@ class FnTranslator:
             name = p[1][-1]
             if name == "Some" and t[0] == "opt" and len(p[2]) == 1:
                 return "some " + self.patp(p[2][0], t[1], env)
+            if t[0] == "enum" and t[1] in self.u.fi.enum_data and (len(p[1]) == 1 or p[1][-2] in (t[1], "Self")):
+                names, tys = self.u.variant_types(t[1], name)
+                if names is not None or len(tys) != len(p[2]): raise RsError("variant pattern arity: %s" % name)
+                return "." + lid(name) + "".join(" " + self.patp(x, y, env) for x, y in zip(p[2], tys))
             raise RsError("constructor pattern outside the subset: %s" % "::".join(p[1]))
+        if k == "pstruct":
+            name = p[1][-1]
+            if t[0] == "enum" and t[1] in self.u.fi.enum_data and (len(p[1]) == 1 or p[1][-2] in (t[1], "Self")):
+                names, tys = self.u.variant_types(t[1], name)
+                if names is None: raise RsError("struct pattern on a tuple variant")
+                given = dict(p[2])
+                for f in given:
+                    if f not in names: raise RsError("no field %s in variant %s" % (f, name))
+                if not p[3] and len(given) != len(names): raise RsError("struct pattern misses fields")
+                return "." + lid(name) + "".join(" " + (self.patp(given[f], y, env) if f in given else "_") for f, y in zip(names, tys))
+            if t[0] == "struct" and name in (t[1], "Self"):
+                # only irrefutable sub-patterns: the fields are projected from a fresh variable
+                v = self.fresh("s")
+                for f, fp in p[2]:
+                    ft = self.u.struct_field(t[1], f)
+                    if fp[0] == "pwild": continue
+                    if fp[0] != "pvar": raise RsError("nested pattern inside a struct pattern")
+                    env[fp[1]] = ft
+                    self.patlets.append((lid(fp[1]), "%s.%s" % (v, lid(f))))
+                return v
+            raise RsError("struct pattern outside the subset: %s" % "::".join(p[1]))
         if k == "ppath":
             name = p[1][-1]
             if name == "None" and t[0] == "opt": return "none"
-            if t[0] == "enum" and name in self.u.fi.enums[t[1]] and (len(p[1]) == 1 or p[1][-2] in (t[1], "Self")):
+            if t[0] == "enum" and name in [v for v, _ in self.u.variants(t[1])] and (len(p[1]) == 1 or p[1][-2] in (t[1], "Self")):
                 return "." + lid(name)
             raise RsError("path pattern outside the subset: %s" % "::".join(p[1]))
         if k == "por":
-            raise RsError("or-patterns are outside the subset")
+            before = dict(env)
+            alts = [self.pat(x, t, env) for x in p[1]]
+            if env != before: raise RsError("or-pattern that binds variables")
+            return " | ".join(alts)
+        if k == "pstr":
+            if t != ("str",): raise RsError("string pattern on a non-string")
+            return json.dumps(p[1], ensure_ascii=False)
         raise RsError("pattern outside the subset")
 
     def patp(self, p, t, env):
@@ -860,10 +1166,20 @@ class FnTranslator:
             pre.append(("let", lid(v), new))
             return env
         if k == "field":
-            base, bt = self.expr(e[1], env, [], None)
+            base, bt = self.expr(e[1], env, pre, None)
             if bt[0] != "struct": raise RsError("field assignment on a non-struct")
             self.u.struct_field(bt[1], e[2])
             return self.place_set(e[1], "{ %s with %s := %s }" % (base, lid(e[2]), new), env, pre)
+        if k == "someof":
+            return self.place_set(e[1], "(some %s)" % new, env, pre)
+        if k == "mcall" and e[2] in ("as_mut", "borrow_mut", "as_mut_slice") and not e[4]:
+            return self.place_set(e[1], new, env, pre)
+        if k == "tfield":
+            base, bt = self.expr(e[1], env, pre, None)
+            if bt[0] != "tuple": raise RsError("tuple field assignment on a non-tuple")
+            n = len(bt[1])
+            comps = [(new if j == e[2] else base + ".2" * j + (".1" if j < n - 1 else "")) for j in range(n)]
+            return self.place_set(e[1], "(" + ", ".join(comps) + ")", env, pre)
         if k == "index":
             base, bt = self.expr(e[1], env, pre, None)
             if bt[0] != "vec": raise RsError("index assignment on a non-vector")
@@ -911,13 +1227,15 @@ class FnTranslator:
                 if m == "truncate":
                     n, nt = self.expr(a[0], env, pre, ("int", "usize"))
                     return self.place_set(recv, "(%s.take %s)" % (base, n), env, pre)
-            if bt[0] == "map" and e[2] == "insert":
+            if bt[0] == "map" and bt[1] == ("str",) and e[2] == "insert" and len(e[4]) == 2:
                 k, kt = self.expr(e[4][0], env, pre, ("str",)); self.check_ty(kt, ("str",), "map key")
                 x, xt = self.expr(e[4][1], env, pre, bt[2]); self.check_ty(xt, bt[2], "map value")
                 return self.place_set(recv, "(Rs.smapInsert %s %s %s)" % (base, k, x), env, pre)
-            if bt[0] == "map" and e[2] == "remove":
+            if bt[0] == "map" and bt[1] == ("str",) and e[2] == "remove":
                 k, kt = self.expr(e[4][0], env, pre, ("str",)); self.check_ty(kt, ("str",), "map key")
                 return self.place_set(recv, "(Rs.smapRemove %s %s)" % (base, k), env, pre)
+            r = self.mutator(recv, e[2], e[4], env, pre, None, discard=True)
+            if r is not None: return env
             raise RsError("mutating method %s on %r is outside the subset" % (e[2], bt[0]))
         term, t = self.expr(e, env, pre, None)
         if t != UNIT:
@@ -925,30 +1243,132 @@ class FnTranslator:
             pass
         return env
 
-    def for_stmt(self, e, env, cont):
+    def for_stmt(self, e, env, cont, ctx=None):
         _, pat, it, body = e
-        if self.has_return(body) or self.has_try(body):
-            raise RsError("return or ? inside a for loop is outside the subset")
+        ctx = ctx or {}
+        if self.has_try(body) and not self.is_result:
+            raise RsError("? inside a for loop of a function that does not return Result is outside the subset")
+        jumps = self.has_jump(body)
         pre = []
         lst, elt = self.iter_expr(it, env, pre)
         A = [("self" if env[v][0] == "alias" else v) for v in self.assigned(body, [], set()) if v in env]
         A = [v for i, v in enumerate(A) if v not in A[:i]]
-        if not A:
-            raise RsError("for loop without effect on outer variables")
-        tup = lid(A[0]) if len(A) == 1 else "(" + ", ".join(lid(v) for v in A) + ")"
-        env2 = dict(env)
-        xp = self.pat(pat, elt, env2)
-        def fin2(envb, t):
-            if t is not None and t[0] != "unit":
-                return self.stmt_expr(t, [], None, envb, fin2)
-            return P(tup)
-        bir = self.stmts(body[1], body[2], env2, fin2)
-        if monadic(bir):
-            fn = "(fun %s %s => do\n%s)" % (tup, xp, "\n".join(emit_m(bir, 8)))
-            pre.append(("bind", tup, MCall("List.foldlM %s %s %s" % (fn, tup, lst))))
-        else:
-            pre.append(("let", tup, "List.foldl (fun %s %s => %s) %s %s" % (tup, xp, inline(bir), tup, lst)))
+        if not jumps:
+            if not A:
+                raise RsError("for loop without effect on outer variables")
+            tup = lid(A[0]) if len(A) == 1 else "(" + ", ".join(lid(v) for v in A) + ")"
+            env2 = dict(env)
+            xp = self.pat(pat, elt, env2)
+            lets = self.flush_patlets()
+            def fin2(envb, t):
+                if t is not None and t[0] != "unit":
+                    return self.stmt_expr(t, [], None, envb, fin2)
+                return P(tup)
+            self.loops.append({"tup": tup, "plain": True})
+            try:
+                bir = self.wrap(lets, self.stmts(body[1], body[2], env2, fin2))
+            finally:
+                self.loops.pop()
+            if monadic(bir):
+                fn = "(fun %s %s => do\n%s)" % (tup, xp, "\n".join(emit_m(bir, 8)))
+                pre.append(("bind", tup, MCall("List.foldlM %s %s %s" % (fn, tup, lst))))
+            else:
+                pre.append(("let", tup, "List.foldl (fun %s %s => %s) %s %s" % (tup, xp, inline(bir), tup, lst)))
+            return self.wrap(pre, cont(env))
+        # early exits: the body returns `Rs.Flow σ ρ` (.next s = go on / continue, .brk s = break, .ret r = return r)
+        tup = "()" if not A else (lid(A[0]) if len(A) == 1 else "(" + ", ".join(lid(v) for v in A) + ")")
+        ctx = dict(ctx); ctx["tup"] = tup
+        self.loops.append(ctx)
+        try:
+            env2 = dict(env)
+            xp = self.pat(pat, elt, env2)
+            lets = self.flush_patlets()
+            def fin3(envb, t):
+                if t is not None and t[0] != "unit":
+                    return self.stmt_expr(t, [], None, envb, fin3)
+                return P("(.next %s)" % tup)
+            bir = self.wrap(lets, self.stmts(body[1], body[2], env2, fin3))
+        finally:
+            self.loops.pop()
+        fn = "(fun %s %s => do\n%s)" % (tup, xp, "\n".join(emit_m(bir, 8)))
+        if ctx.get("ret"):
+            r, v = self.fresh("lr"), self.fresh("rv")
+            rt = self.u.lt(self.out_type(), False)
+            pre.append(("bind", r, MCall("Rs.loopM (ρ := %s) %s %s %s" % (rt, lst, tup, fn))))
+            return self.wrap(pre, Match(r, [(".inl %s" % tup, cont(env)), (".inr %s" % v, self.ret_value(v))]))
+        pre.append(("bind", tup, MCall("Rs.loopB %s %s %s" % (lst, tup, fn))))
         return self.wrap(pre, cont(env))
+
+    def ret_value(self, v):
+        """the function returns the (packed) value `v`: inside an enclosing loop this is `.ret v`"""
+        if self.loops:
+            if self.loops[-1].get("plain"): raise RsError("return inside a nested loop of a loop without early exit")
+            self.loops[-1]["ret"] = True
+            return P("(.ret %s)" % v)
+        return P(v)
+
+    def loop_return(self, env, e):
+        if self.loops[-1].get("plain"): raise RsError("internal: return inside a plain fold")
+        saved, self.loops = self.loops, []
+        try:
+            ir = self.fin_return(env, e)
+        finally:
+            self.loops = saved
+        self.loops[-1]["ret"] = True
+        if isinstance(ir, P): return P("(.ret %s)" % ir.term)
+        v = self.fresh("rv")
+        return Bind(v, ir, P("(.ret %s)" % v))
+
+    def expr_vars(self, e, acc):
+        if isinstance(e, tuple):
+            if e and e[0] == "path" and len(e[1]) == 1: acc.add(e[1][0])
+            if e and e[0] == "macro": acc.add("__macro__")
+            for x in e[1:]: self.expr_vars(x, acc)
+        elif isinstance(e, list):
+            for x in e: self.expr_vars(x, acc)
+        return acc
+
+    def while_stmt(self, e, env, cont):
+        """only the two fuel-free forms: a counted range and the draining of a collection"""
+        if e[0] == "while":
+            _, c, body = e
+            ok = (c[0] == "binary" and c[1] == "<" and c[2][0] == "path" and len(c[2][1]) == 1 and c[2][1][0] in env
+                  and body[2] is None and body[1])
+            if ok:
+                i = c[2][1][0]
+                last = body[1][-1]
+                ok = (is_uint(env[i]) and last[0] == "expr" and last[1][0] == "assign" and last[1][1] == "+="
+                      and last[1][2] == ("path", [i]) and last[1][3][0] == "int" and last[1][3][1] == 1)
+            if ok:
+                inner = ("block", body[1][:-1], None)
+                A = self.assigned(inner, [], set())
+                bound_vars = self.expr_vars(c[3], set())
+                ok = i not in A and not (bound_vars & set(A)) and "__macro__" not in bound_vars \
+                    and not ("self" in bound_vars and any(env.get(v, ("",))[0] == "alias" for v in A))
+            if not ok:
+                raise RsError("while loop that is not of the counted form `while i < n { …; i += 1; }` (n not changed by the body) is outside the subset")
+            bpre = []
+            n, nt = self.expr(c[3], env, bpre, env[i])
+            if bpre: raise RsError("bound of a counted while loop with effects")
+            self.check_ty(nt, env[i], "while bound")
+            f = ("for", ("pvar", i), ("range", ("path", [i]), c[3], False), inner)
+            def cont2(envx):
+                return Let(lid(i), "(max %s %s)" % (lid(i), n), cont(envx))
+            if not self.assigned(inner, [], set()) and not self.has_jump(inner):
+                raise RsError("while loop without effect")
+            return self.for_stmt(f, env, cont2, {"nocontinue": True, "nobreak": True})
+        _, pat, x, body = e
+        if x[0] == "mcall" and x[2] in ("pop", "pop_back", "pop_front") and not x[4] and x[1][0] == "path" and len(x[1][1]) == 1 \
+                and pat[0] == "pctor" and pat[1] == ["Some"] and len(pat[2]) == 1:
+            v = x[1][1][0]
+            if v in env and env[v][0] == "vec" and v not in self.assigned(body, [], set()):
+                src = ("mcall", ("mcall", x[1], "iter", None, [], 0), "rev", None, [], 0) if x[2] in ("pop", "pop_back") \
+                    else ("mcall", x[1], "iter", None, [], 0)
+                f = ("for", pat[2][0], src, body)
+                def cont3(envx):
+                    return Let(lid(v), "[]", cont(envx))
+                return self.for_stmt(f, env, cont3, {"nobreak": True})
+        raise RsError("while-let loop that does not drain a vector with pop/pop_front is outside the subset")
 
     def iter_expr(self, it, env, pre):
         """(Lean list term, element type) of an iterable expression"""
@@ -965,6 +1385,10 @@ class FnTranslator:
         term, t = self.expr(it, env, pre, None)
         if t[0] == "iter": return term, t[1]
         if t[0] == "vec": return term, t[1]
+        if t[0] == "viter" or t[0] in ("umap", "uset") or (t[0] in ("map", "set") and not (t[1] == ("str",) or is_uint(t[1]))):
+            raise RsError("iteration over a collection whose order the model does not know")
+        if t[0] == "map": return term, ("tuple", [t[1], t[2]])
+        if t[0] == "set": return term, t[1]
         raise RsError("iteration over %r is outside the subset" % (t[0],))
 
     # ---- expressions
@@ -992,7 +1416,7 @@ class FnTranslator:
             tys = [w if p[1] == INTLIT and w is not None else p[1] for p, w in zip(parts, ws)]
             if any(t == INTLIT for t in tys): raise RsError("untyped integer literal in a tuple")
             return "(" + ", ".join(p[0] for p in parts) + ")", ("tuple", tys)
-        if k == "path": return self.path(e, env, want)
+        if k == "path": return self.path(e, env, want, pre)
         if k == "unary": return self.unary(e, env, pre, want)
         if k == "binary": return self.binary(e, env, pre, want)
         if k == "cast": return self.cast(e, env, pre)
@@ -1008,10 +1432,53 @@ class FnTranslator:
             if i >= n: raise RsError("tuple index out of range")
             s = base + ".2" * i + (".1" if i < n - 1 else "")
             return s, bt[1][i]
+        if k == "someof":
+            base, bt = self.expr(e[1], env, pre, None)
+            if bt[0] != "opt": raise RsError("as_mut().unwrap() on a non-Option")
+            v = self.fresh("x")
+            pre.append(("bind", v, MCall("Rs.unwrap %s" % base)))
+            return v, bt[1]
+        if k == "array":
+            el = want[1] if want is not None and want[0] == "vec" else None
+            parts = []
+            for x in e[1]:
+                term, t = self.expr(x, env, pre, el)
+                if t == INTLIT: raise RsError("array literal of untyped integers")
+                if el is not None: self.check_ty(t, el, "array element")
+                el = t
+                parts.append(term)
+            if el is None: return "[]", ("vec", ("unknown",))
+            return "[" + ", ".join(parts) + "]", ("vec", el)
+        if k == "arrayrep":
+            el = want[1] if want is not None and want[0] == "vec" else None
+            x, xt = self.expr(e[1], env, pre, el)
+            if xt == INTLIT: raise RsError("array literal of untyped integers")
+            n, nt = self.expr(e[2], env, pre, ("int", "usize"))
+            self.check_ty(nt, ("int", "usize"), "array length")
+            return "(List.replicate %s %s)" % (n, x), ("vec", xt)
+        if k == "range":
+            raise RsError("range expression outside a for loop or an index")
         if k == "index":
             base, bt = self.expr(e[1], env, pre, None)
             if bt[0] != "vec": raise RsError("indexing a non-vector")
-            if e[2][0] == "range": raise RsError("slicing is outside the subset")
+            if e[2][0] == "range":
+                # v[a..b], v[a..], v[..b], v[..]: panics unless a <= b <= len
+                _, ra, rb, incl = e[2]
+                U = ("int", "usize")
+                a = "0"
+                if ra is not None:
+                    a, at = self.expr(ra, env, pre, U); self.check_ty(at, U, "slice start")
+                if rb is not None:
+                    b, btt = self.expr(rb, env, pre, U); self.check_ty(btt, U, "slice end")
+                    if incl:
+                        b2 = self.fresh()
+                        pre.append(("bind", b2, MCall("Rs.uadd Rs.USIZE_MAX %s 1" % b))); b = b2
+                else:
+                    if incl: raise RsError("`..=` without an end")
+                    b = "%s.length" % base
+                t = self.fresh("sl")
+                pre.append(("bind", t, MCall("Rs.slice %s %s %s" % (base, a, b))))
+                return t, bt
             i, it = self.expr(e[2], env, pre, ("int", "usize"))
             self.check_ty(it, ("int", "usize"), "index")
             t = self.fresh("x")
@@ -1026,6 +1493,17 @@ class FnTranslator:
             return r[0], r[1]
         if k == "macro":
             if e[1] == "format": return self.format_(e, env, pre)
+            if e[1] == "vec":
+                toks = [Tok("p", "[", e[3])] + list(e[2]) + [Tok("p", "]", e[3]), Tok("eof", "", e[3])]
+                p = Parser(toks, 0, self.u.rel)
+                a = p.primary(False)
+                if p.peek().k != "eof": p.err("trailing tokens in vec!")
+                return self.expr(a, env, pre, want)
+            if e[1] in ("panic", "unreachable", "unimplemented", "todo"):
+                if want is None: raise RsError("%s! as a value of unknown type" % e[1])
+                v = self.fresh()
+                pre.append(("bind", v, MCall("(Rs.panic : Rs.M %s)" % self.u.lt(want, False))))
+                return v, want
             raise RsError("macro %s! in expression position is outside the subset" % e[1])
         if k == "struct": return self.struct_lit(e, env, pre)
         if k == "closure": raise RsError("closure outside a supported method argument")
@@ -1035,6 +1513,19 @@ class FnTranslator:
     def struct_lit(self, e, env, pre):
         name = e[1][-1]
         if name == "Self": name = self.impl
+        if len(e[1]) >= 2 and e[3] is None:
+            en = e[1][-2] if e[1][-2] != "Self" else self.impl
+            if en in self.u.fi.enum_data:
+                names, tys = self.u.variant_types(en, name)
+                if names is None or sorted(names) != sorted(f for f, _ in e[2]): raise RsError("variant literal does not set every field")
+                given = {}
+                for f, fe in e[2]:       # evaluation in source order
+                    ft = tys[names.index(f)]
+                    term, t = self.expr(fe, env, pre, ft)
+                    self.check_ty(t, ft, "field %s" % f)
+                    given[f] = term if " " not in term or term.startswith("(") else "(" + term + ")"
+                self.u.resolve(("named", en, []))
+                return "(%s.%s %s)" % (en, lid(name), " ".join(given[f] for f in names)), ("enum", en)
         if name not in self.u.fi.structs or e[3] is not None: raise RsError("struct literal outside the subset")
         decl = [f for f, _ in self.u.fi.structs[name]]
         if sorted(decl) != sorted(f for f, _ in e[2]): raise RsError("struct literal does not set every field")
@@ -1061,13 +1552,13 @@ class FnTranslator:
                 else: raise RsError("format! argument type outside the subset")
         return "(" + " ++ ".join(out or ['""']) + ")", ("str",)
 
-    def path(self, e, env, want):
+    def path(self, e, env, want, pre=None):
         segs = e[1]
         if len(segs) == 1:
             v = segs[0]
             if v in env:
                 if env[v][0] == "alias":
-                    return self.expr(env[v][1], env, [], None)
+                    return self.expr(env[v][1], env, pre if pre is not None else [], None)
                 return lid(v), env[v]
             if v == "None":
                 if want is not None and want[0] == "opt": return "none", want
@@ -1086,6 +1577,9 @@ class FnTranslator:
         if len(segs) == 2 and segs[0] in UMAX and segs[1] == "MIN": return "0", ("int", segs[0])
         if len(segs) == 2 and segs[0] == "i64" and segs[1] in ("MAX", "MIN"): return "Rs.I64_" + segs[1], ("int", "i64")
         en = segs[-2] if segs[-2] != "Self" else self.impl
+        if en in self.u.fi.enum_data and (segs[-1], None) in self.u.fi.enum_data[en]:
+            self.u.resolve(("named", en, []))
+            return "%s.%s" % (en, lid(segs[-1])), ("enum", en)
         if en in self.u.fi.enums and self.u.fi.enums[en] is not None and segs[-1] in self.u.fi.enums[en]:
             self.u.resolve(("named", en, []))
             return "%s.%s" % (en, lid(segs[-1])), ("enum", en)
@@ -1097,8 +1591,9 @@ class FnTranslator:
     def unary(self, e, env, pre, want):
         op = e[1]
         if op == "!":
-            term, t = self.expr(e[2], env, pre, BOOL)
-            if t != BOOL: raise RsError("bitwise not is outside the subset")
+            term, t = self.expr(e[2], env, pre, want if want is not None and is_uint(want) else BOOL)
+            if is_uint(t): return "(Rs.unot %s %s)" % (UMAX[t[1]], term), t
+            if t != BOOL: raise RsError("! on %r is outside the subset" % (t,))
             return "(!%s)" % term, BOOL
         if op == "-":
             if e[2][0] == "int":
@@ -1178,6 +1673,13 @@ class FnTranslator:
                 raise RsError("arithmetic on %r" % (at,))
             pre.append(("bind", t, MCall(call)))
             return t, at
+        if op in ("&", "|", "^"):
+            a, at, b, bt = self.operands(l, r, env, pre, want)
+            if at == BOOL and bt == BOOL:
+                return "(%s %s %s)" % (a, {"&": "&&", "|": "||", "^": "!="}[op], b), BOOL   # both operands already evaluated
+            if at == INTLIT and bt == INTLIT: raise RsError("bitwise operator on two untyped literals")
+            if at != bt or not is_uint(at): raise RsError("bitwise %s on %r and %r (only unsigned integers)" % (op, at, bt))
+            return "(%s %s %s)" % (a, {"&": "&&&", "|": "|||", "^": "^^^"}[op], b), at
         raise RsError("binary operator %s is outside the subset" % op)
 
     def _cmp_operands(self, l, r, env, pre):
@@ -1265,10 +1767,13 @@ class FnTranslator:
                 v = self.fresh()
                 pre.append(("bind", v, MCall(r[0])))
                 return v, r[1]
+            if r[2] == "tried":
+                return r[0], r[1]
             term, t = r[0], r[1]
         else:
             term, t = self.expr(x, env, pre, None)
         if t[0] == "opt":
+            if self.loops: raise RsError("? on an Option inside a loop")
             if self.is_result or self.val_ty[0] != "opt": raise RsError("? on an Option in a function that does not return Option")
             if self.selfk == "mut" or self.mut_params: raise RsError("? on Option in a method that returns updated state")
             v = self.fresh()
@@ -1290,9 +1795,13 @@ class FnTranslator:
 
     def call_any(self, e, env, pre, want=None, want_result=False):
         """returns (term, type, 'val'|'comp')"""
-        if e[0] == "call":
-            return self.call(e, env, pre, want)
-        return self.mcall(e, env, pre, want)
+        self.want_result = want_result
+        try:
+            if e[0] == "call":
+                return self.call(e, env, pre, want)
+            return self.mcall(e, env, pre, want)
+        finally:
+            self.want_result = False
 
     def call_translated(self, info, args_terms, env, pre, self_term=None):
         if getattr(info, "mut_params", None): raise RsError("call of a function with &mut parameters is outside the subset")
@@ -1311,6 +1820,65 @@ class FnTranslator:
             pre.append(("bind", v, MCall(call)))
             return v, info.out_ty, "val"
         return "(" + call + ")", info.out_ty, "val"
+
+    def invoke(self, info, recv, args, env, pre):
+        """call of a translated function that updates state (`&mut self` on an arbitrary place `recv`, `&mut` parameters):
+        the updated values are stored back into the argument places"""
+        a = self.args_for(info, args, env, pre)
+        for x in info.exts: self.add_ext(*x)
+        for o in info.needs_deq:
+            if o not in self.needs_deq: self.needs_deq.append(o)
+        self.callees.append(info.lean_name)
+        parts = [info.lean_name] + [n for n, _ in info.exts]
+        if recv is not None:
+            rterm, rty = self.expr(recv, env, pre, None)
+            parts.append(rterm if " " not in rterm or rterm.startswith("(") else "(" + rterm + ")")
+        parts += a
+        call = " ".join(parts)
+        if info.is_result:
+            if not getattr(self, "want_result", False) or not self.is_result:
+                raise RsError("Result of the state-updating call %s used other than by `?` or in tail position" % info.name)
+        outs = []   # (fresh name, place AST)
+        ps = [p for p in info.params if p[0] != "self"]
+        for n in info.out_names:
+            if n == "self":
+                if recv is None: raise RsError("&mut self callee without receiver")
+                outs.append((self.fresh("s"), recv))
+            else:
+                idx = [p[0] for p in ps].index(n)
+                outs.append((self.fresh("m"), args[idx]))
+        names = [o[0] for o in outs]
+        val = None
+        if info.val_ty != UNIT or not names:
+            val = self.fresh("r"); names.append(val)
+        patt = names[0] if len(names) == 1 else "(" + ", ".join(names) + ")"
+        if info.monadic: pre.append(("bind", patt, MCall(call)))
+        else: pre.append(("let", patt, call))
+        for nm, place in outs:
+            self.place_set(place, nm, env, pre)
+        kind = "tried" if info.is_result else "val"
+        return (val if val is not None else "()"), info.val_ty, kind
+
+    def decl_external(self, impl, m, args, env, pre):
+        """a required (body-less) method of the trait whose default method is being translated: explicit parameter"""
+        d = self.u.fi.function(impl, m)
+        pts = [self.u.resolve(ty, impl) for _, ty, _, refmut in d["params"]]
+        if any(refmut for _, _, _, refmut in d["params"]) or d["self"] != "ref":
+            raise RsError("required trait method %s with &mut receiver/parameters" % m)
+        rt = self.u.resolve(d["ret"], impl)
+        if len(pts) != len(args): raise RsError("arity of trait method %s" % m)
+        terms = []
+        for a, pt in zip(args, pts):
+            term, t = self.expr(a, env, pre, pt)
+            self.check_ty(t, pt, "argument of trait method %s" % m)
+            terms.append(term if " " not in term or term.startswith("(") else "(" + term + ")")
+        res = rt[1] if rt[0] == "result" else rt
+        lty = " → ".join(["SelfT"] + [self.u.lt(t, False) for t in pts] +
+                         [("Rs.M " + self.u.lt(res, False)) if rt[0] == "result" else self.u.lt(res, False)])
+        self.add_ext("ext_" + m, lty)
+        call = "ext_%s self %s" % (m, " ".join(terms))
+        if rt[0] == "result": return call.rstrip(), res, "comp"
+        return "(" + call.rstrip() + ")", res, "val"
 
     def args_for(self, info, args, env, pre):
         ps = [p for p in info.params if p[0] != "self"]
@@ -1348,8 +1916,43 @@ class FnTranslator:
         if segs == ["Vec", "new"] and not args:
             if want is not None and want[0] == "vec": return "[]", want, "val"
             return "[]", ("vec", ("unknown",)), "val"
+        if len(segs) == 2 and segs[0] in ("Vec", "VecDeque", "BTreeMap", "HashMap", "BTreeSet", "HashSet", "OrderedMap",
+                                          "UnorderedMap", "OrderedSet", "UnorderedSet", "Map") and name in ("new", "with_capacity", "default"):
+            for x in args:
+                term, t = self.expr(x, env, pre, ("int", "usize"))
+            if want is not None and want[0] in ("vec", "map", "umap", "set", "uset"): return "[]", want, "val"
+            raise RsError("%s::%s() without a known collection type (annotate the let)" % (segs[0], name))
+        if segs == ["drop"] and len(args) == 1:
+            self.expr(args[0], env, [], None)
+            return "()", UNIT, "val"
+        if len(segs) == 2 and segs[0] in UMAX and name in ("from_be_bytes", "from_le_bytes") and len(args) == 1:
+            nb = UBITS[segs[0]] // 8
+            x = args[0]
+            if x[0] == "mcall" and x[2] in ("unwrap", "expect") and x[1][0] == "mcall" and x[1][2] == "try_into":
+                term, t = self.expr(x[1][1], env, pre, None)
+                if t != ("vec", ("int", "u8")): raise RsError("try_into on %r" % (t,))
+                v = self.fresh("arr")
+                pre.append(("bind", v, MCall("Rs.arrayOfSlice %d %s" % (nb, term))))
+                term = v
+            else:
+                term, t = self.expr(x, env, pre, ("vec", ("int", "u8")))
+                if t != ("vec", ("int", "u8")): raise RsError("%s on %r" % (name, t))
+            return "(Rs.%s %s)" % ("fromBeBytes" if name == "from_be_bytes" else "fromLeBytes", term), ("int", segs[0]), "val"
+        en = (segs[-2] if segs[-2] != "Self" else self.impl) if len(segs) >= 2 else None
+        if en in self.u.fi.enum_data and name in [v for v, _ in self.u.fi.enum_data[en]]:
+            names, tys = self.u.variant_types(en, name)
+            if names is not None or len(tys) != len(args): raise RsError("variant constructor %s arity" % name)
+            terms = []
+            for a_, ft in zip(args, tys):
+                term, t = self.expr(a_, env, pre, ft)
+                self.check_ty(t, ft, "argument of %s::%s" % (en, name))
+                terms.append(term if " " not in term or term.startswith("(") else "(" + term + ")")
+            self.u.resolve(("named", en, []))
+            return "(%s.%s %s)" % (en, lid(name), " ".join(terms)), ("enum", en), "val"
         impl = None
         if len(segs) == 2 and segs[0] in ("Self", self.impl): impl = self.impl
+        elif len(segs) == 2 and (segs[0], name) in self.u.fi.fns and (segs[0] in self.u.fi.structs or segs[0] in self.u.fi.enum_data):
+            impl = segs[0]
         elif len(segs) != 1: raise RsError("call of %s is outside the subset" % "::".join(segs))
         if name in self.u.externals and impl is None:
             return self.call_external(name, args, env, pre)
@@ -1357,6 +1960,8 @@ class FnTranslator:
             info = self.u.get_fn(impl, name)
             if info.params and info.params[0][0] == "self":
                 raise RsError("static call of a method")
+            if info.mut_params:
+                return self.invoke(info, None, args, env, pre)
             a = self.args_for(info, args, env, pre)
             return self.call_translated(info, a, env, pre)
         raise RsError("call of unknown function %s (not in this file, not declared external)" % "::".join(segs))
@@ -1378,8 +1983,12 @@ class FnTranslator:
     def mcall(self, e, env, pre, want):
         _, recv, m, turbo, args, line = e
         # methods of the translated impl on self
-        if recv == ("path", ["self"]) and self.impl and (self.impl, m) in self.u.fi.fns and m not in ("clone",):
+        if recv == ("path", ["self"]) and self.impl and (self.impl, m) in self.u.fi.fns and m not in ("clone",) \
+                and (self.impl, m) not in self.u.fi.decl_only:
             info = self.u.get_fn(self.impl, m)
+            if info.mut_params:
+                if info.mut_self and self.selfk != "mut": raise RsError("&mut self method called from a &self method")
+                return self.invoke(info, recv, args, env, pre)
             a = self.args_for(info, args, env, pre)
             if info.mut_self:
                 if self.selfk != "mut": raise RsError("&mut self method called from a &self method")
@@ -1400,6 +2009,8 @@ class FnTranslator:
                 pre.append(("let", "(self, %s)" % v, term))
                 return v, info.val_ty, "val"
             return self.call_translated(info, a, env, pre, "self")
+        if recv == ("path", ["self"]) and self.trait_self and (self.impl, m) in self.u.fi.decl_only:
+            return self.decl_external(self.impl, m, args, env, pre)
         if recv[0] == "path" and len(recv[1]) == 1 and recv[1][0] not in env and recv[1][0] != "self":
             raise RsError("method call on unknown %s" % recv[1][0])
         if recv[0] == "path" and len(recv[1]) == 1 and recv[1][0] in env and env[recv[1][0]][0] == "struct" \
@@ -1418,6 +2029,21 @@ class FnTranslator:
                 pre.append(("let", "(%s, %s)" % (lid(v), r), term))
                 return r, info.val_ty, "val"
             return self.call_translated(info, a, env, pre, lid(v))
+        # methods of another struct/enum of the file on an arbitrary place
+        if m not in ("clone",) and not (recv == ("path", ["self"])):
+            try:
+                _, rty0 = self.expr(recv, env, [], None)
+            except RsError:
+                rty0 = None
+            if rty0 is not None and rty0[0] in ("struct", "enum") and (rty0[1], m) in self.u.fi.fns:
+                info = self.u.get_fn(rty0[1], m)
+                if info.mut_self or info.mut_params:
+                    return self.invoke(info, recv, args, env, pre)
+                a = self.args_for(info, args, env, pre)
+                rterm, _ = self.expr(recv, env, pre, None)
+                return self.call_translated(info, a, env, pre, rterm if " " not in rterm or rterm.startswith("(") else "(" + rterm + ")")
+        r = self.mutator(recv, m, args, env, pre, want)
+        if r is not None: return r
         # place-mutating Option::take
         if m == "take" and not args:
             base, bt = self.expr(recv, env, pre, None)
@@ -1428,25 +2054,166 @@ class FnTranslator:
             return v, bt, "val"
         base, bt = self.expr(recv, env, pre, None)
         k = bt[0]
-        if m in ("clone", "copied", "cloned", "as_ref", "to_owned", "borrow") and not args and k != "iter":
+        if m in ("clone", "copied", "cloned", "as_ref", "to_owned", "borrow") and not args and k not in ("iter", "viter"):
             return base, bt, "val"
         if m == "into" and not args:
             if want is not None and is_uint(want) and is_uint(bt) and UBITS[want[1]] >= UBITS[bt[1]]: return base, want, "val"
             if want is not None and want == bt: return base, bt, "val"
             raise RsError(".into() without a known widening target")
+        if k == "viter":
+            # values/keys/entries of a collection in an order the model does not know
+            if m in ("into_iter", "iter", "copied", "cloned") and not args: return base, bt, "val"
+            if (m in ("sum", "count", "min", "max") and not args) or (m in ("any", "all") and len(args) == 1):
+                return self.list_method(base, ("iter", bt[1]), m, turbo, args, env, pre, want)
+            raise RsError("method .%s on a collection whose order the model does not know is outside the subset (order-sensitive)" % m)
         if is_uint(bt) or bt == INTLIT:
             return self.int_method(base, bt, m, args, env, pre, want)
         if k == "opt": return self.opt_method(base, bt, m, args, env, pre, want)
         if k == "tryres": return self.tryres_method(base, bt, m, args, env, pre)
         if k == "vec" or k == "iter": return self.list_method(base, bt, m, turbo, args, env, pre, want)
-        if k == "str" and m in ("to_string", "as_str", "to_owned") and not args: return base, bt, "val"
-        if k == "map" and m == "get" and len(args) == 1:
+        if k == "str" and m in ("to_string", "as_str", "to_owned", "into", "as_ref") and not args: return base, bt, "val"
+        if k == "map" and bt[1] == ("str",) and m == "get" and len(args) == 1:
             kk, kt = self.expr(args[0], env, pre, ("str",)); self.check_ty(kt, ("str",), "map key")
             return "(Rs.smapGet %s %s)" % (base, kk), ("opt", bt[2]), "val"
-        if k == "map" and m == "contains_key" and len(args) == 1:
+        if k == "map" and bt[1] == ("str",) and m == "contains_key" and len(args) == 1:
             kk, kt = self.expr(args[0], env, pre, ("str",)); self.check_ty(kt, ("str",), "map key")
             return "(Rs.smapGet %s %s).isSome" % (base, kk), BOOL, "val"
+        if k in ("map", "umap"):
+            g, _, _ = self.map_fns(bt, m in ("get", "contains_key"))
+            if m in ("get", "contains_key") and len(args) == 1:
+                kk, kt = self.expr(args[0], env, pre, bt[1]); self.check_ty(kt, bt[1], "map key")
+                r = "(%s %s %s)" % (g, base, self.paren(kk))
+                return (r, ("opt", bt[2]), "val") if m == "get" else (r + ".isSome", BOOL, "val")
+            if m == "len" and not args: return "%s.length" % base, ("int", "usize"), "val"
+            if m == "is_empty" and not args: return "%s.isEmpty" % base, BOOL, "val"
+            ordered = k == "map" and (bt[1] == ("str",) or is_uint(bt[1]))
+            if m in ("iter", "into_iter", "keys", "values") and not args:
+                # the order is unknown to the model ("viter"): only order-insensitive consumers are admitted
+                it = "iter" if ordered else "viter"
+                if m == "keys": return "(%s.map (fun kv => kv.1))" % base, (it, bt[1]), "val"
+                if m == "values": return "(%s.map (fun kv => kv.2))" % base, (it, bt[2]), "val"
+                return base, (it, ("tuple", [bt[1], bt[2]])), "val"
+        if k in ("set", "uset"):
+            if m == "contains" and len(args) == 1:
+                x, xt = self.expr(args[0], env, pre, bt[1]); self.check_ty(xt, bt[1], "contains"); self.note_eq(bt[1])
+                return "(%s.contains %s)" % (base, self.paren(x)), BOOL, "val"
+            if m == "len" and not args: return "%s.length" % base, ("int", "usize"), "val"
+            if m == "is_empty" and not args: return "%s.isEmpty" % base, BOOL, "val"
+            if m in ("iter", "into_iter") and not args:
+                return base, ("iter" if (k == "set" and is_uint(bt[1])) else "viter", bt[1]), "val"
         raise RsError("method .%s on %r is outside the subset (line %d)" % (m, bt, line))
+
+    def paren(self, term):
+        return term if " " not in term or term.startswith("(") or term.startswith("[") else "(" + term + ")"
+
+    def map_fns(self, bt, uses_eq=True):
+        """(get, insert, remove) operators of a map type"""
+        if bt[0] == "map" and bt[1] == ("str",): return "Rs.smapGet", "Rs.smapInsert", "Rs.smapRemove"
+        if uses_eq: self.note_eq(bt[1])
+        if bt[0] == "map" and is_uint(bt[1]): return "Rs.omapGet", "Rs.nmapInsert", "Rs.omapRemove"
+        return "Rs.omapGet", "Rs.omapInsert", "Rs.omapRemove"
+
+    def mutator(self, recv, m, args, env, pre, want, discard=False):
+        """place-mutating collection methods, also in value position (`discard`: statement position, the returned old
+        value is not computed); None if not applicable"""
+        if m not in MUTATORS: return None
+        try:
+            self.place_root(recv)
+            _, bt = self.expr(recv, env, [], None)
+        except RsError:
+            return None
+        k = bt[0]
+        if k not in ("vec", "opt", "map", "umap", "set", "uset"): return None
+        U = ("int", "usize")
+        def arg(i, ty):
+            term, t = self.expr(args[i], env, pre, ty)
+            self.check_ty(t, ty, "argument of %s" % m)
+            return self.paren(term)
+        def setp(new):
+            self.place_set(recv, new, env, pre)
+        if k == "vec":
+            el = bt[1]
+            if m in ("push_back", "push") and len(args) == 1:
+                base, _ = self.expr(recv, env, pre, None); x = arg(0, el)
+                setp("(%s ++ [%s])" % (base, x)); return "()", UNIT, "val"
+            if m == "push_front" and len(args) == 1:
+                base, _ = self.expr(recv, env, pre, None); x = arg(0, el)
+                setp("(%s :: %s)" % (x, base)); return "()", UNIT, "val"
+            if m in ("pop", "pop_back") and not args:
+                base, _ = self.expr(recv, env, pre, None)
+                v = self.fresh("old"); pre.append(("let", v, "%s.getLast?" % base))
+                setp("%s.dropLast" % base); return v, ("opt", el), "val"
+            if m == "pop_front" and not args:
+                base, _ = self.expr(recv, env, pre, None)
+                v = self.fresh("old"); pre.append(("let", v, "%s.head?" % base))
+                setp("%s.tail" % base); return v, ("opt", el), "val"
+            if m in ("extend_from_slice", "extend") and len(args) == 1:
+                base, _ = self.expr(recv, env, pre, None)
+                y, yt = self.expr(args[0], env, pre, bt)
+                if yt[0] not in ("vec", "iter") or (yt[1] != el and yt[1] != ("unknown",)): raise RsError("%s with %r" % (m, yt))
+                setp("(%s ++ %s)" % (base, y)); return "()", UNIT, "val"
+            if m == "remove" and len(args) == 1:
+                base, _ = self.expr(recv, env, pre, None); i = arg(0, U)
+                x, r = self.fresh("x"), self.fresh("v")
+                pre.append(("bind", "(%s, %s)" % (x, r), MCall("Rs.vecRemove %s %s" % (base, i))))
+                setp(r); return x, el, "val"
+            if m == "retain" and len(args) == 1:
+                base, _ = self.expr(recv, env, pre, None)
+                pats, ir, t = self.closure1(args[0], [el], env, BOOL)
+                if monadic(ir): raise RsError("effectful predicate closure")
+                self.check_ty(t, BOOL, "retain")
+                setp("(%s.filter (fun %s => %s))" % (base, pats[0], inline(ir))); return "()", UNIT, "val"
+            if m == "drain" and len(args) == 1 and args[0] == ("range", None, None, False):
+                base, _ = self.expr(recv, env, pre, None)
+                v = self.fresh("dr"); pre.append(("let", v, base))
+                setp("[]"); return v, ("iter", el), "val"
+            if m == "reverse" and not args:
+                base, _ = self.expr(recv, env, pre, None)
+                setp("%s.reverse" % base); return "()", UNIT, "val"
+            return None
+        if k == "opt":
+            el = bt[1]
+            if m == "get_or_insert" and len(args) == 1:
+                base, _ = self.expr(recv, env, pre, None); x = arg(0, el)
+                v = self.fresh("g"); pre.append(("let", v, "(%s.getD %s)" % (base, x)))
+                setp("(some %s)" % v); return v, el, "val"
+            if m == "replace" and len(args) == 1:
+                base, _ = self.expr(recv, env, pre, None); x = arg(0, el)
+                v = self.fresh("old"); pre.append(("let", v, base))
+                setp("(some %s)" % x); return v, bt, "val"
+            return None
+        if k in ("map", "umap"):
+            g, ins, rem = self.map_fns(bt)
+            if m == "insert" and len(args) == 2:
+                base, _ = self.expr(recv, env, pre, None); kk = arg(0, bt[1]); x = arg(1, bt[2])
+                v = self.fresh("old")
+                if not discard: pre.append(("let", v, "(%s %s %s)" % (g, base, kk)))
+                setp("(%s %s %s %s)" % (ins, base, kk, x)); return v, ("opt", bt[2]), "val"
+            if m == "remove" and len(args) == 1:
+                base, _ = self.expr(recv, env, pre, None); kk = arg(0, bt[1])
+                v = self.fresh("old")
+                if not discard: pre.append(("let", v, "(%s %s %s)" % (g, base, kk)))
+                setp("(%s %s %s)" % (rem, base, kk)); return v, ("opt", bt[2]), "val"
+            if m == "clear" and not args:
+                setp("[]"); return "()", UNIT, "val"
+            return None
+        if k in ("set", "uset"):
+            self.note_eq(bt[1])
+            ins = "Rs.nsetInsert" if k == "set" and is_uint(bt[1]) else "Rs.asetInsert"
+            if m == "insert" and len(args) == 1:
+                base, _ = self.expr(recv, env, pre, None); x = arg(0, bt[1])
+                v = self.fresh("new")
+                if not discard: pre.append(("let", v, "(!(%s.contains %s))" % (base, x)))
+                setp("(%s %s %s)" % (ins, base, x)); return v, BOOL, "val"
+            if m == "remove" and len(args) == 1:
+                base, _ = self.expr(recv, env, pre, None); x = arg(0, bt[1])
+                v = self.fresh("had")
+                if not discard: pre.append(("let", v, "(%s.contains %s)" % (base, x)))
+                setp("(%s.filter (fun e => e != %s))" % (base, x)); return v, BOOL, "val"
+            if m == "clear" and not args:
+                setp("[]"); return "()", UNIT, "val"
+            return None
+        return None
 
     def int_method(self, base, bt, m, args, env, pre, want):
         if bt == INTLIT: raise RsError("method on an untyped literal")
@@ -1463,6 +2230,8 @@ class FnTranslator:
                "wrapping_mul": ("Rs.uwrapMul %s" % mx, bt), "min": ("min", bt), "max": ("max", bt)}
         if m in two and len(args) == 1:
             return "(%s %s %s)" % (two[m][0], base, arg()), two[m][1], "val"
+        if m in ("to_be_bytes", "to_le_bytes") and not args:
+            return "(Rs.%s %d %s)" % ("toBeBytes" if m == "to_be_bytes" else "toLeBytes", UBITS[bt[1]] // 8, base), ("vec", ("int", "u8")), "val"
         if m == "abs_diff" and len(args) == 1:
             b = arg()
             return "(if %s ≤ %s then %s - %s else %s - %s)" % (base, b, b, base, base, b), bt, "val"
@@ -1536,8 +2305,29 @@ class FnTranslator:
         if m == "count" and not args and bt[0] == "iter": return "%s.length" % base, ("int", "usize"), "val"
         if m == "collect" and not args and bt[0] == "iter": return base, ("vec", el), "val"
         if m == "rev" and not args and bt[0] == "iter": return "%s.reverse" % base, bt, "val"
-        if m == "first" and bt[0] == "vec": return "%s.head?" % base, ("opt", el), "val"
-        if m == "last" and bt[0] == "vec": return "%s.getLast?" % base, ("opt", el), "val"
+        if m in ("first", "front") and bt[0] == "vec": return "%s.head?" % base, ("opt", el), "val"
+        if m in ("last", "back") and not args: return "%s.getLast?" % base, ("opt", el), "val"
+        if m in ("to_vec", "as_slice", "into_vec", "to_owned", "as_mut_slice") and not args and bt[0] == "vec": return base, bt, "val"
+        if m == "get" and len(args) == 1 and bt[0] == "vec":
+            i, it = self.expr(args[0], env, pre, ("int", "usize")); self.check_ty(it, ("int", "usize"), "get")
+            return "%s[%s]?" % (base, i), ("opt", el), "val"
+        if m == "enumerate" and not args and bt[0] == "iter":
+            return "(Rs.enumerate %s)" % base, ("iter", ("tuple", [("int", "usize"), el])), "val"
+        if m == "zip" and len(args) == 1 and bt[0] == "iter":
+            o, ot = self.expr(args[0], env, pre, None)
+            if ot[0] not in ("iter", "vec"): raise RsError("zip with %r" % (ot,))
+            return "(List.zip %s %s)" % (base, o), ("iter", ("tuple", [el, ot[1]])), "val"
+        if m in ("skip", "take") and len(args) == 1 and bt[0] == "iter":
+            n, nt = self.expr(args[0], env, pre, ("int", "usize")); self.check_ty(nt, ("int", "usize"), m)
+            return "(%s.%s %s)" % (base, "drop" if m == "skip" else "take", n), bt, "val"
+        if m in ("min", "max") and not args and bt[0] == "iter" and is_uint(el):
+            return "%s.%s?" % (base, m), ("opt", el), "val"
+        if m in ("find", "position") and len(args) == 1 and bt[0] == "iter":
+            pats, ir, t = self.closure1(args[0], [el], env, BOOL)
+            if monadic(ir): raise RsError("effectful predicate closure")
+            self.check_ty(t, BOOL, m)
+            if m == "find": return "(%s.find? (fun %s => %s))" % (base, pats[0], inline(ir)), ("opt", el), "val"
+            return "(%s.findIdx? (fun %s => %s))" % (base, pats[0], inline(ir)), ("opt", ("int", "usize")), "val"
         if m == "contains" and bt[0] == "vec":
             x, xt = self.expr(args[0], env, pre, el); self.check_ty(xt, el, "contains"); self.note_eq(el)
             return "(%s.contains %s)" % (base, x), BOOL, "val"
@@ -1577,8 +2367,11 @@ class FnTranslator:
         raise RsError("iterator method .%s is outside the subset" % m)
 
 
+MUTATORS = ("push", "push_back", "push_front", "pop", "pop_back", "pop_front", "extend_from_slice", "extend", "remove",
+            "retain", "drain", "reverse", "get_or_insert", "replace", "insert", "clear")
 MUT_METHODS = ("resize", "insert", "push", "clear", "truncate", "extend", "remove", "pop", "retain", "drain", "sort",
-               "iter_mut", "push_front", "push_back", "pop_front", "pop_back", "append")
+               "iter_mut", "push_front", "push_back", "pop_front", "pop_back", "append", "extend_from_slice", "reverse",
+               "get_or_insert", "replace")
 
 
 def fn_lean_lines(info):
